@@ -9,6 +9,7 @@ returns on the simulated array.  By induction this holds after every history of 
 import DimModel.Lib.OnDisk
 import DimModel.Proofs.C20
 import DimModel.Proofs.C20Multi
+import DimModel.Proofs.C20Store
 namespace DimModel
 open Lib OnDisk
 
@@ -420,6 +421,145 @@ theorem read_multi_consistent_counterexample :
       = okObs ([("file", [.str "c", .str "d"]), ("t", [.num 1, .num 2]), ("u", [.num 3])],
                [("v", [10, 11, 60, 61]), ("w", [30, 50])])) := by
   refine ⟨by decide, by decide, by decide⟩
+
+/-! ### per-file round trip: a Dataset written with `write_nc` and read back without indices -/
+
+/-- a Dataset as `Dataset.write_nc` meets it: plain (not grouped) axes with distinct names, distinct keys, every variable
+defined over the Dataset's own axes (what `Dataset.__setitem__` establishes) with values of the shape of its axes -/
+structure WfDs {α} (ds : Ds α) : Prop where
+  plain : ∀ ax ∈ ds.axes, ax.members = []
+  dims : ds.dims.Nodup
+  keys : ds.keys.Nodup
+  shared : ∀ kv ∈ ds.vars, ∀ ax ∈ kv.2.axes, ax ∈ ds.axes
+  shape : ∀ kv ∈ ds.vars, kv.2.vals.shape = kv.2.axes.map (·.size)
+
+/-- the Dataset with every variable replaced by what is read back from its store (`OnDisk.reload`) -/
+def reloadDs {α} (d : α) (ds : Ds α) : Ds α :=
+  { axes := ds.axes, vars := ds.vars.map fun kv => (kv.1, reload d kv.2), attrs := ds.attrs }
+
+/-- element-wise relation between two lists of the same length -/
+def ListRel {β γ : Type} (R : γ → β → Prop) : List γ → List β → Prop
+  | [], [] => True
+  | x :: xs, y :: ys => R x y ∧ ListRel R xs ys
+  | _, _ => False
+
+/-- the same Dataset: same axes in the same order, same metadata, the same keys in the same order, and under every key
+the same array (`SameArr`: axes, metadata, shape, and the same cell at every index of the shape) -/
+def SameDs {α} (r ds : Ds α) : Prop :=
+  r.axes = ds.axes ∧ r.attrs = ds.attrs ∧
+    ListRel (fun (x y : String × DimArray α) => x.1 = y.1 ∧ SameArr x.2 y.2) r.vars ds.vars
+
+theorem forall₂_map_left {β γ : Type} (R : γ → β → Prop) (f : β → γ) :
+    ∀ (l : List β), (∀ x ∈ l, R (f x) x) → ListRel R (l.map f) l
+  | [], _ => trivial
+  | x :: l, h => ⟨h x (by simp), forall₂_map_left R f l fun y hy => h y (List.mem_cons_of_mem _ hy)⟩
+
+theorem reloadDs_keys {α} (d : α) (ds : Ds α) : (reloadDs d ds).keys = ds.keys := by
+  simp [reloadDs, Ds.keys, List.map_map, Function.comp_def]
+
+theorem reloadDs_same {α} (d : α) (ds : Ds α) (hw : WfDs ds) : SameDs (reloadDs d ds) ds := by
+  refine ⟨rfl, rfl, ?_⟩
+  apply forall₂_map_left
+  intro kv hkv
+  have hc := reload_cells d kv.2 (hw.shape kv hkv)
+  exact ⟨rfl, rfl, rfl, rfl, hc.1, hc.2⟩
+
+/-- what the read of a written Dataset returns, exactly: every full-range position index is resolved, every variable is
+read at all positions of its own axes, and the `__setitem__` loop re-assembles keys, axes and metadata as they were -/
+theorem readFile_storeDs_eq {α} (d : α) (ds : Ds α) (hw : WfDs ds) :
+    readFile d (storeDs ds) none none = .ok (reloadDs d ds) := by
+  have hndF : ((storeDs ds).vars.map (·.1)).Nodup := by
+    have : (storeDs ds).vars.map (·.1) = ds.keys := by simp [storeDs, Ds.keys, List.map_map, Function.comp_def]
+    rw [this]; exact hw.keys
+  have hfold := readFold (storeDs ds).vars (readVarAt d ds.axes (ds.axes.map fullPix)) ds.axes hw.dims
+    (by
+      intro kv hkv ax hax
+      obtain ⟨kv0, hkv0, rfl⟩ := List.mem_map.1 hkv
+      rw [readVarAt_store d ds.axes hw.dims kv0.2 (hw.shared kv0 hkv0) hw.plain] at hax
+      exact hw.shared kv0 hkv0 ax hax)
+    (storeDs ds).vars { axes := ds.axes } (fun kv hkv => ⟨hkv, find?_fst hndF hkv⟩) rfl hndF
+    (by intro kv _ h; simp [Ds.keys] at h)
+  have h1 : readFile d (storeDs ds) none none = (do
+      let data ← ((storeDs ds).vars.map (·.1)).foldlM (readStep (storeDs ds).vars (readVarAt d ds.axes (ds.axes.map fullPix)))
+        ({ axes := axesOrtho ds.axes (ds.axes.map fullPix) } : Ds α)
+      pure { data with attrs := ds.attrs,
+                       axes := ds.dims.filterMap fun dim => data.axes.find? (·.name == dim) }) := rfl
+  rw [h1, axesOrtho_full ds.axes hw.plain, hfold]
+  simp only [bind, Except.bind, pure, Except.pure, reloadDs]
+  congr 2
+  · exact filterMap_find_self ds.axes hw.dims
+  · simp only [List.nil_append, storeDs, List.map_map]
+    apply List.map_congr_left
+    intro kv hkv
+    simp only [Function.comp]
+    rw [readVarAt_store d ds.axes hw.dims kv.2 (hw.shared kv hkv) hw.plain]
+
+/-- ROUND TRIP (names = None, no indices): reading the file written from a well-formed Dataset succeeds and returns the
+same Dataset - keys in order, axes in the Dataset's order, metadata, and every variable equal cell by cell -/
+theorem readFile_storeDs {α} (d : α) (ds : Ds α) (hw : WfDs ds) :
+    ∃ r, readFile d (storeDs ds) none none = .ok r ∧ r.keys = ds.keys ∧ r.dims = ds.dims ∧ SameDs r ds :=
+  ⟨reloadDs d ds, readFile_storeDs_eq d ds hw, reloadDs_keys d ds, rfl, reloadDs_same d ds hw⟩
+
+theorem mapM_readFile_storeDs {α} (d : α) : ∀ (dss : List (Ds α)), (∀ ds ∈ dss, WfDs ds) →
+    (dss.map storeDs).mapM (fun f => readFile d f none none) = .ok (dss.map (reloadDs d))
+  | [], _ => rfl
+  | ds :: dss, h => by
+    rw [List.map_cons, List.mapM_cons, readFile_storeDs_eq d ds (h ds (by simp)),
+      mapM_readFile_storeDs d dss (fun x hx => h x (List.mem_cons_of_mem _ hx))]
+    rfl
+
+theorem consistent_reload {α} (d : α) (dss : List (Ds α)) : Consistent (dss.map (reloadDs d)) = Consistent dss := by
+  cases dss with
+  | nil => rfl
+  | cons m0 rest =>
+    simp only [List.map_cons, Consistent, List.all_map]
+    congr 1
+    funext m
+    simp only [Function.comp, reloadDs_keys]
+    rfl
+
+/-- WRITE, THEN MULTI-FILE READ: reading at once the files WRITTEN from well-formed Datasets `dss` that agree on their
+variables and dimensions is `stack_ds` / `concatenate_ds` (+ `reindex_axis`) of Datasets `mems` that are the `dss`
+themselves up to the cell-by-cell equality `SameDs` (the values are functions: equal at every index of the shape) -/
+theorem write_read_multi_eq_memory {α} [Inhabited α] (d nan : α) (dss : List (Ds α)) (o : MultiOpts) (dk : List Label)
+    (hw : ∀ ds ∈ dss, WfDs ds) (hc : Consistent dss = true) :
+    ∃ mems, ListRel SameDs mems dss ∧
+      readMulti d nan (dss.map storeDs) none none o dk = joinMem nan mems o dk := by
+  refine ⟨dss.map (reloadDs d), forall₂_map_left _ _ dss (fun ds h => reloadDs_same d ds (hw ds h)), ?_⟩
+  exact read_multi_eq_memory d nan (dss.map storeDs) none none o dk _ (mapM_readFile_storeDs d dss hw)
+    (by rw [consistent_reload, hc])
+
+/-- ... and when the Datasets do not agree, the files written from them are refused -/
+theorem write_read_multi_inconsistent {α} [Inhabited α] (d nan : α) (dss : List (Ds α)) (o : MultiOpts) (dk : List Label)
+    (hw : ∀ ds ∈ dss, WfDs ds) (hc : Consistent dss = false) :
+    readMulti d nan (dss.map storeDs) none none o dk = .error .assertion :=
+  read_multi_inconsistent d nan (dss.map storeDs) none none o dk _ (mapM_readFile_storeDs d dss hw)
+    (by rw [consistent_reload, hc])
+
+/-- the hypotheses are satisfiable by non-trivial Datasets (two variables over different axes) -/
+example : WfDs exFileC := ⟨by decide, by decide, by decide, by decide, by decide⟩
+example : WfDs exFileA ∧ WfDs exFileB := ⟨⟨by decide, by decide, by decide, by decide, by decide⟩,
+  ⟨by decide, by decide, by decide, by decide, by decide⟩⟩
+
+/-- COUNTEREXAMPLE (`WfDs.shared` is needed): a variable whose axis `t` carries other labels than the Dataset's `t`
+(never produced by `Dataset.__setitem__`) is refused when the file is read back (`__setitem__`: ValueError) -/
+def exNotShared : Ds Nat :=
+  { axes := [{ name := "t", labels := [.num 1, .num 2], kind := .i }],
+    vars := [("v", { axes := [{ name := "t", labels := [.num 5, .num 6], kind := .i }],
+                     vals := { shape := [2], get := fun j => 10 + j.getD 0 0 }, vkind := .i })] }
+theorem readFile_storeDs_shared_counterexample :
+    obsDs (readFile 0 (storeDs exNotShared) none none) = errObs .value := by decide
+
+/-- COUNTEREXAMPLE (`WfDs.keys` is needed): with a repeated key the second variable replaces the first -/
+def exDupKey : Ds Nat :=
+  { axes := [{ name := "t", labels := [.num 1, .num 2], kind := .i }],
+    vars := [("v", { axes := [{ name := "t", labels := [.num 1, .num 2], kind := .i }],
+                     vals := { shape := [2], get := fun j => 10 + j.getD 0 0 }, vkind := .i }),
+             ("v", { axes := [{ name := "t", labels := [.num 1, .num 2], kind := .i }],
+                     vals := { shape := [2], get := fun j => 20 + j.getD 0 0 }, vkind := .i })] }
+theorem readFile_storeDs_keys_counterexample :
+    ((readFile 0 (storeDs exDupKey) none none).toOption.map (·.keys)) = some ["v"] ∧ exDupKey.keys = ["v", "v"] := by
+  refine ⟨by decide, by decide⟩
 
 end Multi
 
